@@ -39,6 +39,7 @@ func To(errBuf *strings.Builder, validName, objName, fieldName string, tv reflec
 		}
 		// 生成如: "TestOrder.AppName" input "xxx", Explain: it is less than 2 length
 		errBuf.WriteString(GetJoinValidErrStr(objName, fieldName, valStr, ExplainEn, "it is less than", ToStr(min), unitStr))
+		return
 	}
 
 	if isMoreThan {
@@ -107,6 +108,7 @@ func OTo(errBuf *strings.Builder, validName, objName, fieldName string, tv refle
 		}
 		// 生成如: "TestOrder.AppName" input "xxx", Explain: it is less than 2 length
 		errBuf.WriteString(GetJoinValidErrStr(objName, fieldName, valStr, ExplainEn, "it is less than or equal", ToStr(min), unitStr))
+		return
 	}
 
 	if isMoreThan {
